@@ -32,6 +32,9 @@ type c11Case struct {
 	// then on it is the policy in force
 	Cfg2     *cfggen.Config `json:"cfg2,omitempty"`
 	ReloadAt int            `json:"reload_at,omitempty"`
+	// Alias: the first configuration reaches the Loader as a value assembled in Go in which equal groups
+	// of different users are one value (refOpts.aliasGroups), not as a freshly decoded document
+	Alias bool `json:"alias,omitempty"`
 }
 
 var (
@@ -324,7 +327,7 @@ func runC11(t failer, c c11Case) {
 	fail := func(sig, format string, args ...interface{}) {
 		violation(t, "C11", "author", "C11:"+sig, c, format, args...)
 	}
-	env, err := startRef(c.Cfg, refOpts{format: c.Format, recover: true})
+	env, err := startRef(c.Cfg, refOpts{format: c.Format, recover: true, aliasGroups: c.Alias})
 	if err != nil {
 		ev.Class("config-refused")
 		return
@@ -523,6 +526,43 @@ func TestC11Regress(t *testing.T) {
 // TestC11EnumPatterns: every kind of pattern the generator knows, alone in a permit rule (and alone in a deny
 // rule in front of a permit-all), against every argument value of the pool, one and two arguments: the
 // decisions are the model's.  Deterministic, so that no kind of pattern depends on the draw of the day.
+// TestC11EnumSharedGroupValues: users without rules of their own who inherit from the same first group
+// and from different later groups, with the configuration held the way a Go provider holds it (one value
+// per group, slices with room to spare).  What one user inherits must not depend on what another does.
+func TestC11EnumSharedGroupValues(t *testing.T) {
+	perm := func(n string, m ...string) cfggen.Command { return cfggen.Command{Name: n, Match: m, Action: cfggen.ActionPermit} }
+	deny := func(n string, m ...string) cfggen.Command { return cfggen.Command{Name: n, Match: m, Action: cfggen.ActionDeny} }
+	for _, format := range []string{"yaml", "json"} {
+		for nshared := 1; nshared <= 4; nshared++ {
+			var c c11Case
+			c.Format, c.Alias = format, true
+			c.Cfg.Secrets = []cfggen.Secret{cfggen.NewSecret(cfggen.ScopeA, cfggen.KeyA, cfggen.PrefixA)}
+			shared := cfggen.Group{Name: "base", Commands: []cfggen.Command{perm("show", "version"), deny("configure"), perm("ping"), deny("show", "system")}[:nshared],
+				Services: []cfggen.Service{{Name: "shell", SetValues: []cfggen.Value{{Name: "priv-lvl", Values: []string{"1"}}}}}}
+			tails := []cfggen.Group{
+				{Name: "ops", Commands: []cfggen.Command{deny("reload"), perm("*")}, Services: []cfggen.Service{{Name: "ppp", SetValues: []cfggen.Value{{Name: "addr-pool", Values: []string{"p1"}}}}}},
+				{Name: "ro", Commands: []cfggen.Command{deny("*")}},
+				{Name: "adm", Commands: []cfggen.Command{perm("*")}, Services: []cfggen.Service{{Name: "ppp", SetValues: []cfggen.Value{{Name: "addr-pool", Values: []string{"p9"}}}}}},
+			}
+			for i, g := range tails {
+				c.Cfg.Users = append(c.Cfg.Users, cfggen.User{Name: fmt.Sprintf("u%d", i), Scopes: []string{cfggen.ScopeA}, Groups: []cfggen.Group{shared, g}})
+			}
+			c.Cfg.Users = append(c.Cfg.Users, cfggen.User{Name: "solo", Scopes: []string{cfggen.ScopeA}, Groups: []cfggen.Group{shared}})
+			for round := 0; round < 2; round++ {
+				for _, u := range []string{"u0", "u1", "u2", "solo"} {
+					for _, cmd := range [][]string{{"cmd=reload"}, {"cmd=show", "cmd-arg=version"}, {"cmd=show", "cmd-arg=system"}, {"cmd=configure"}, {"cmd=ping"}, {"cmd=clear"}} {
+						c.Reqs = append(c.Reqs, c11Req{User: u, Args: append([]string{"service=shell"}, cmd...)})
+					}
+					c.Reqs = append(c.Reqs, c11Req{User: u, Args: []string{"service=ppp", "protocol=ip"}}, c11Req{User: u, Args: []string{"service=shell", "cmd="}})
+				}
+			}
+			runC11(t, c)
+			classifyC11(c)
+			ev.Class("aliased-groups")
+		}
+	}
+}
+
 func TestC11EnumPatterns(t *testing.T) {
 	patterns := []string{"terminal", ".*", "terminal|exclusive", "^terminal", "version$", "^terminal|version$", "(terminal|system)", "version.*", `\.system`, `terminal \| reload`,
 		"[a-z]+", "  terminal\t", "", "(", "[a", "*", `\`, "^terminal version$", "terminal (version|system)", `.*\$`, "^$",
